@@ -629,5 +629,27 @@ ASSUMPTIONS = CODEC_ASSUMPTIONS + ["'within one reporting interval' for the stat
 THEOREMS = CODEC_THEOREMS + MEMBER_THEOREMS
 
 
+class LagMode(vlib.Mode):
+    """a stats-topic listener that is one report behind (its queue holds the previous report by reference while the
+    feeder produces the next): the report it eventually reads must be the one that was handed on (implementation only)"""
+    name = "status-lag"
+    impl_mode = "status"
+    compare = False
+    shrinkable = False
+
+    def generate(self, rng, tier):
+        return [["lagframes"] for _ in range(2 if tier == "quick" else 8)]
+
+    def oracle(self, case, out):
+        o = out[0] if out else ""
+        if o == "lag ok": return []
+        if o.startswith("lag first-report-changed"):
+            return [("stats-report-changed-after-handoff", "a stats report still queued at a lagging listener was overwritten by the next report: " + o)]
+        return [("stats-feeder-not-reporting", f"lagging-listener scenario -> {o}")]
+
+    def nontrivial(self, case, out):
+        return bool(out) and out[0].startswith("lag ")
+
+
 def modes(tier):
-    return codec_modes(tier) + [RelayMode("C14")]
+    return codec_modes(tier) + [RelayMode("C14"), LagMode()]
